@@ -143,17 +143,19 @@ static MPT_STRUCT(decode_state) dst;
 
 static void seg_alloc(struct seg *s, size_t align, const uint8_t *dat, size_t len)
 {
-	/* [64-aligned block] ... GUARD bytes, then `align` more bytes, data, GUARD bytes */
+	/* [64-aligned block]: 64 guard bytes, then `align` more guard bytes, then the data up to the very end of the
+	 * block, so that AddressSanitizer reports any load or store behind the segment (guard bytes would only show
+	 * stores); stores in front of the segment are seen in the guard bytes */
 	uint8_t *blk;
-	if (posix_memalign((void **) &blk, 64, 64 + GUARD + len + GUARD + 16)) abort();
-	memset(blk, 0xA5, 64 + GUARD + len + GUARD + 16);
+	if (posix_memalign((void **) &blk, 64, 64 + align + len)) abort();
+	memset(blk, 0xA5, 64 + align + len);
 	s->block = blk; s->data = blk + 64 + align; s->len = len; s->align = align;
 	/* guard area: everything in the block except [data, data+len) */
 	if (len) memcpy(s->data, dat, len);
 }
 static int seg_guards_ok(const struct seg *s)
 {
-	const uint8_t *p = s->block, *e = s->block + 64 + GUARD + s->len + GUARD + 16;
+	const uint8_t *p = s->block, *e = s->block + 64 + s->align + s->len;
 	for (; p < e; ++p) {
 		if (p >= s->data && p < s->data + s->len) continue;
 		if (*p != 0xA5) return 0;
@@ -503,7 +505,10 @@ int main(void)
 				struct iovec v[MAXSEG + 1];
 				for (size_t i = 0; i < nseg; i++) { v[i].iov_base = segs[i].data; v[i].iov_len = segs[i].len; }
 				if (!nseg) { puts("bad-op"); continue; }
+				/* a decoder call that does not return is a violation of "terminates", reported as a fault */
+				alarm(10);
 				int r = dec(&dst, v, *op == 'r' ? nseg : 0);
+				alarm(0);
 				dec_line(r, 1);
 			}
 			else if (!strcmp(op, "size") && drv_nw == 3) {
